@@ -94,8 +94,8 @@ func (r *Runner) execCallVals(st *State, f *Frame, common *ssa.CallCommon, fnv V
 				r.contractCall(st, f, sp, nil, common.Signature(), append([]Val{recv}, args...), res, pos)
 				return
 			}
-			if isPureExternal(key) {
-				r.havocCall(st, f, common.Signature(), args, res, key, false)
+			if isPureExternal(key) || r.pureIfaceMethod(typeKey(common.Value.Type()), common.Method.Name()) {
+				r.havocCall(st, f, common.Signature(), nil, res, key, false)
 				return
 			}
 			r.note("interface call havocked: " + key)
@@ -384,8 +384,16 @@ func (r *Runner) contractCall(st *State, f *Frame, sp *FuncSpec, callee *ssa.Fun
 }
 
 type callRec struct {
-	args []Val
-	rets []Val
+	args  []Val
+	rets  []Val
+	valid Term // Bool: the record describes a call that happened on this path (zero value = true)
+}
+
+func (c callRec) validTerm() Term {
+	if c.valid.IsZero() {
+		return True
+	}
+	return c.valid
 }
 
 // callsTerm: number of calls of the contracted callee `short` made so far (ghost).
